@@ -192,6 +192,8 @@ func (e *execState) projectionCheck() {
 	}
 	pf := pres.frames
 	res.Stats.Probes["projection_runs"]++
+	// the projected run is part of this run's trace: the determinism self-test compares it across processes
+	e.logf("projection of auction %d: trace %s", k, pres.TraceHash)
 	nb := len(e.frames)
 	if len(pf) < nb {
 		nb = len(pf)
